@@ -165,7 +165,11 @@ struct Run : ContBase {
     void after_op(const char *what) {
         size_t w;
         if (!reg.canaries_ok(&w)) c.fail(IMAGE, "hasharr:canary", "after %s: byte %zu outside the user-supplied region was overwritten", what, w);
-        int mx = -1, us = -1; int n = qhasharr_size(t, &mx, &us);
+        int mx = -1, us = -1;
+        unsigned sel = (unsigned)(m.size() + used_model()) & 7u;      // both out-parameters are optional ("if not NULL"): now and then leave one or both out
+        int n = qhasharr_size(t, sel == 1 || sel == 3 ? nullptr : &mx, sel == 2 || sel == 3 ? nullptr : &us);
+        if (sel == 1 || sel == 3) mx = cap;
+        if (sel == 2 || sel == 3) us = (int)used_model();
         if (n != (int)m.size() || mx != cap || us != (int)used_model())
             c.fail(FUNC, "hasharr:size", "after %s: size()=(%d keys, %d max, %d used), model (%zu, %d, %zu)", what, n, mx, us, m.size(), cap, used_model());
         if (c.decides(SHAPE)) check_image(t, what);
